@@ -35,6 +35,8 @@ pub struct Cfg {
     pub routers: Vec<usize>,
     /// router strings that resolve to nothing usable (wrong family, no port, garbage)
     pub bad_routers: Vec<String>,
+    /// contact 0 names one (silent) address under two different node ids, and itself under a second id
+    pub twin_ids: bool,
     /// instants at which bootstrapped() is called
     pub waiters: Vec<u64>,
     pub horizon_ms: u64,
@@ -83,6 +85,17 @@ pub fn build(cfg: &Cfg) -> (Scenario, Vec<Box<dyn Peer>>) {
                 }
                 r.up = up;
             }
+        }
+        if cfg.twin_ids && i == 0 {
+            let mute: SocketAddr = if cfg.v6 { "[fd00::2:ff]:6881".parse().unwrap() } else { "10.0.2.250:6881".parse().unwrap() };
+            let mut a = contact_id(200);
+            let mut b = contact_id(201);
+            // both in the same bucket as seen from the node
+            a[0] = 0x55;
+            b[0] = 0x56;
+            let mut c = contact_id(0);
+            c[19] ^= 0xff;
+            r.node_list = crate::sim::peers::NodeList::ClosestPlus(vec![(a, mute), (b, mute), (c, contact_addr(0, cfg.v6))]);
         }
         peers.push(Box::new(r));
     }
@@ -225,7 +238,7 @@ fn beh_parse(v: &Value) -> Beh {
     }
 }
 fn cfg_json(c: &Cfg) -> Value {
-    json!({"v6":c.v6,"read_only":c.read_only,"contacts":c.contacts.iter().map(beh_json).collect::<Vec<_>>(),"nodes":c.nodes,"routers":c.routers,"bad_routers":c.bad_routers,"waiters":c.waiters,"horizon_ms":c.horizon_ms,"latency":c.latency,"rng_seed":c.rng_seed})
+    json!({"v6":c.v6,"read_only":c.read_only,"contacts":c.contacts.iter().map(beh_json).collect::<Vec<_>>(),"nodes":c.nodes,"routers":c.routers,"bad_routers":c.bad_routers,"twin_ids":c.twin_ids,"waiters":c.waiters,"horizon_ms":c.horizon_ms,"latency":c.latency,"rng_seed":c.rng_seed})
 }
 fn cfg_parse(v: &Value) -> Cfg {
     let us = |k: &str| -> Vec<usize> { v[k].as_array().map(|a| a.iter().map(|x| x.as_u64().unwrap() as usize).collect()).unwrap_or_default() };
@@ -235,6 +248,7 @@ fn cfg_parse(v: &Value) -> Cfg {
         contacts: v["contacts"].as_array().map(|a| a.iter().map(beh_parse).collect()).unwrap_or_default(),
         nodes: us("nodes"),
         routers: us("routers"),
+        twin_ids: v["twin_ids"].as_bool().unwrap_or(false),
         bad_routers: v["bad_routers"].as_array().map(|a| a.iter().map(|x| x.as_str().unwrap().to_string()).collect()).unwrap_or_default(),
         waiters: v["waiters"].as_array().map(|a| a.iter().map(|x| x.as_u64().unwrap()).collect()).unwrap_or_default(),
         horizon_ms: v["horizon_ms"].as_u64().unwrap_or(60_000),
@@ -269,7 +283,7 @@ pub fn replay(v: &Value) -> i32 {
 
 pub fn configs(tier: Tier, seed: u64) -> Vec<Cfg> {
     let mut out = vec![];
-    let base = |contacts: Vec<Beh>, nodes: Vec<usize>, routers: Vec<usize>, waiters: Vec<u64>, horizon: u64| Cfg { v6: false, read_only: true, contacts, nodes, routers, bad_routers: vec![], waiters, horizon_ms: horizon, latency: 20, rng_seed: seed };
+    let base = |contacts: Vec<Beh>, nodes: Vec<usize>, routers: Vec<usize>, waiters: Vec<u64>, horizon: u64| Cfg { v6: false, read_only: true, contacts, nodes, routers, bad_routers: vec![], twin_ids: false, waiters, horizon_ms: horizon, latency: 20, rng_seed: seed };
     // no contacts at all
     for ro in [true, false] {
         for v6 in [false, true] {
@@ -346,6 +360,15 @@ pub fn configs(tier: Tier, seed: u64) -> Vec<Cfg> {
         c.bad_routers = bad;
         out.push(c);
     }
+    // a contact whose answers list one address under two node ids (and itself under a second id)
+    for v6 in [false, true] {
+        for n in [1usize, 3] {
+            let mut c = base(vec![Beh::Responsive; n], (0..n).collect(), vec![], vec![0, 10_000], 60_000);
+            c.twin_ids = true;
+            c.v6 = v6;
+            out.push(c);
+        }
+    }
     // flapping contacts (no deadline asserted; liveness only)
     out.push(base(vec![Beh::Flapping(10_000, 120_000); 2], vec![0, 1], vec![], vec![0, 15_000, 200_000], tier.pick(600_000, 3_600_000)));
     out
@@ -377,8 +400,8 @@ pub fn run(tier: Tier) -> Report {
     let fs = fates();
     let mut levels = vec![];
     let picks: Vec<Cfg> = vec![
-        Cfg { v6: false, read_only: true, contacts: vec![Beh::Responsive], nodes: vec![0], routers: vec![], bad_routers: vec![], waiters: vec![0, 2_000], horizon_ms: 700_000, latency: 20, rng_seed: seed },
-        Cfg { v6: false, read_only: true, contacts: vec![Beh::Responsive, Beh::Silent, Beh::Responsive], nodes: vec![0, 1, 2], routers: vec![], bad_routers: vec![], waiters: vec![0], horizon_ms: 700_000, latency: 20, rng_seed: seed },
+        Cfg { v6: false, read_only: true, contacts: vec![Beh::Responsive], nodes: vec![0], routers: vec![], bad_routers: vec![], twin_ids: false, waiters: vec![0, 2_000], horizon_ms: 700_000, latency: 20, rng_seed: seed },
+        Cfg { v6: false, read_only: true, contacts: vec![Beh::Responsive, Beh::Silent, Beh::Responsive], nodes: vec![0, 1, 2], routers: vec![], bad_routers: vec![], twin_ids: false, waiters: vec![0], horizon_ms: 700_000, latency: 20, rng_seed: seed },
     ];
     for cfg in picks.iter().take(tier.pick(1, 2)) {
         let run_one = |prefix: &[usize]| -> RunOutcome {
